@@ -225,11 +225,13 @@ theorem ob_doRegister (st : St) (k : Int) (reg : St → St × Nat) (h : ∀ s, O
     · exact (h st).trans (ob_with_slots _ _)
 
 
+theorem ob_with_cancelReq (st : St) (l : List Int) : ObsEq st { st with cancelReq := l } := ObsEq.of_eq rfl
+
 theorem ob_doCancel (st : St) (k : Int) : ObsEq st (doCancel st k) := by
   unfold doCancel
   split
   · exact (ob_emit _ _)
-  · exact ob_watchCancel _ _
+  · exact (ob_with_cancelReq _ _).trans (ob_watchCancel _ _)
 
 
 theorem ob_runAct (st : St) (act : Act) : ObsEq st (runAct st act) := by
